@@ -72,6 +72,7 @@ import (
 	"fmt"
 	"math/rand"
 	"net"
+	"os"
 	"strings"
 	"testing"
 	"time"
@@ -148,6 +149,36 @@ var variedSizes = []int{4096, 100, 127, 128, 129, 1000, 5000, 8186}
 var tinySizes = []int{0, 1, 50, 99}
 var garbageSizes = []int{4102, 106, 8192}
 
+// profile = the weights of one stratum
+type profile struct {
+	maxPeers, minReq, maxReq int
+	peerBias                 int     // >0: a request comes from C0 unless a 1-in-peerBias draw says otherwise
+	entry                    [14]int // kinds of drawEntry
+	gap                      [10]int // index into gaps
+	variant                  [5]int
+	length                   [5]int // 1 | 2-4 | 0 | 50-52 | 120 entries
+	dd                       [7]int
+	holdBefore               [5]int // index into holds
+}
+
+var profiles = []profile{
+	{maxPeers: 5, minReq: 1, maxReq: 14,
+		entry:   [14]int{3, 4, 3, 3, 1, 1, 1, 3, 2, 2, 1, 1, 1, 1},
+		gap:     [10]int{8, 2, 3, 3, 2, 3, 2, 1, 2, 1},
+		variant: [5]int{14, 1, 1, 1, 1}, length: [5]int{8, 6, 1, 2, 1},
+		dd: [7]int{6, 5, 2, 3, 1, 2, 1}, holdBefore: [5]int{8, 2, 2, 1, 1}},
+	{maxPeers: 2, minReq: 2, maxReq: 8, peerBias: 4,
+		entry:   [14]int{1, 1, 5, 5, 1, 1, 1, 0, 0, 0, 0, 0, 0, 0},
+		gap:     [10]int{10, 3, 2, 1, 0, 0, 0, 0, 0, 0},
+		variant: [5]int{1, 0, 0, 0, 0}, length: [5]int{6, 1, 0, 0, 0},
+		dd: [7]int{10, 2, 0, 1, 1, 1, 0}, holdBefore: [5]int{2, 4, 4, 1, 0}},
+	{maxPeers: 3, minReq: 3, maxReq: 14,
+		entry:   [14]int{1, 8, 1, 3, 0, 1, 0, 1, 0, 0, 0, 0, 0, 0},
+		gap:     [10]int{4, 1, 2, 3, 4, 4, 3, 2, 3, 2},
+		variant: [5]int{20, 0, 1, 0, 0}, length: [5]int{8, 2, 0, 0, 0},
+		dd: [7]int{10, 2, 0, 0, 0, 1, 0}, holdBefore: [5]int{10, 1, 1, 0, 0}},
+}
+
 func isPrivateIP(ip net.IP) bool {
 	return ip.IsPrivate() || ip.IsLoopback() || ip.IsLinkLocalUnicast() || ip.IsUnspecified()
 }
@@ -158,8 +189,20 @@ func run(t *testing.T, tape *simrt.Tape) *common.Outcome {
 	w := &world{o: o, byNonce: map[uint64]*reqRec{}}
 
 	// ---- configuration -------------------------------------------------------------------
-	w.lim = limits{rpm: g.Range(2, 9), perPeer: g.Range(1, 5), dialData: g.Range(1, 4), maxConc: g.Range(1, 3)}
-	nPeers := g.Range(2, 5)
+	// The stratum is drawn first: 0 = general mix, 1 = concurrency (generous per-minute limits, bursts of one
+	// peer's requests that need dial data and are held before the data is sent), 2 = windows (tight per-minute
+	// limits, many cheap requests spread over minutes).
+	stratum := g.Weighted(3, 1, 1)
+	pf := profiles[stratum]
+	switch stratum {
+	case 1:
+		w.lim = limits{rpm: 12, perPeer: 8, dialData: 8, maxConc: g.Range(1, 3)}
+	case 2:
+		w.lim = limits{rpm: g.Range(1, 4), perPeer: g.Range(1, 3), dialData: g.Range(1, 2), maxConc: 3}
+	default:
+		w.lim = limits{rpm: g.Range(2, 9), perPeer: g.Range(1, 5), dialData: g.Range(1, 4), maxConc: g.Range(1, 3)}
+	}
+	nPeers := g.Range(2, pf.maxPeers)
 	shareIP := g.Chance(1, 4)
 	mode := []simnet.LinkMode{simnet.Whole, simnet.Fragment}[g.Int(2)]
 	var lat []time.Duration
@@ -167,7 +210,7 @@ func run(t *testing.T, tape *simrt.Tape) *common.Outcome {
 		lat = []time.Duration{0, 0, time.Millisecond, 20 * time.Millisecond}
 	}
 	seed := int64(g.Int(1 << 16))
-	nReq := g.Range(1, 14)
+	nReq := g.Range(pf.minReq, pf.maxReq)
 
 	idOf := func(seed int) peer.ID {
 		id, err := peer.IDFromPrivateKey(simhost.DetKey(seed))
@@ -185,11 +228,11 @@ func run(t *testing.T, tape *simrt.Tape) *common.Outcome {
 		cl[1].ip, cl[1].port = cl[0].ip, 4002
 	}
 	w.clients = cl
-	o.Logf("limits: global=%d per-peer=%d dial-data=%d concurrent-per-peer=%d; %d clients shareIP=%v link=%d latencies=%v randseed=%d",
-		w.lim.rpm, w.lim.perPeer, w.lim.dialData, w.lim.maxConc, nPeers, shareIP, mode, lat != nil, seed)
+	o.Logf("stratum %d limits: global=%d per-peer=%d dial-data=%d concurrent-per-peer=%d; %d clients shareIP=%v link=%d latencies=%v randseed=%d",
+		stratum, w.lim.rpm, w.lim.perPeer, w.lim.dialData, w.lim.maxConc, nPeers, shareIP, mode, lat != nil, seed)
 
 	drawEntry := func(c *client) entry {
-		switch g.Weighted(3, 4, 3, 3, 1, 1, 1, 3, 2, 2, 1, 1, 1, 1) {
+		switch g.Weighted(pf.entry[:]...) {
 		case 0:
 			return tcpEntry("ip4", c.ip, c.port, "", clsYes, true)
 		case 1: // own IP, nobody listens: the cheapest accepted request
@@ -247,11 +290,14 @@ func run(t *testing.T, tape *simrt.Tape) *common.Outcome {
 	for j := range plans {
 		p := &reqPlan{}
 		p.peer = g.Int(nPeers)
-		p.gap = gaps[g.Weighted(8, 2, 3, 3, 2, 3, 2, 1, 2, 1)]
-		p.variant = g.Weighted(14, 1, 1, 1, 1)
+		if pf.peerBias > 0 && !g.Chance(1, pf.peerBias) {
+			p.peer = 0
+		}
+		p.gap = gaps[g.Weighted(pf.gap[:]...)]
+		p.variant = g.Weighted(pf.variant[:]...)
 		p.partHold = holds[g.Int(len(holds))]
 		c := cl[p.peer]
-		switch g.Weighted(8, 6, 1, 2, 1) {
+		switch g.Weighted(pf.length[:]...) {
 		case 0:
 			p.entries = []entry{drawEntry(c)}
 		case 1:
@@ -279,13 +325,13 @@ func run(t *testing.T, tape *simrt.Tape) *common.Outcome {
 			}
 		}
 		d := &p.dd
-		d.mode = g.Weighted(6, 5, 2, 3, 1, 2, 1)
+		d.mode = g.Weighted(pf.dd[:]...)
 		d.exact = g.Bool()
 		d.deltaIdx = g.Int(len(shortDeltas))
 		d.sizeA = variedSizes[g.Int(len(variedSizes))]
 		d.sizeB = variedSizes[g.Int(len(variedSizes))]
 		d.count = g.Int(6)
-		d.holdBefore = holds[g.Weighted(8, 2, 2, 1, 1)]
+		d.holdBefore = holds[g.Weighted(pf.holdBefore[:]...)]
 		d.holdMid = holds[g.Weighted(10, 1, 1, 1, 1)]
 		d.after = g.Int(3)
 		switch d.mode {
@@ -412,9 +458,14 @@ func run(t *testing.T, tape *simrt.Tape) *common.Outcome {
 	if (res.Stuck || res.StepLimit) && o.Trouble == "" {
 		o.Trouble = fmt.Sprintf("stuck=%v steplimit=%v steps=%d", res.Stuck, res.StepLimit, res.Steps)
 	}
-	if len(res.Residue) > 0 {
+	for _, gr := range res.Residue {
+		if strings.Contains(gr, "verifsim/simnet.") { // a pump task in its latency sleep: the simulator's own
+			continue
+		}
 		o.Probe("goroutines-left-after-close")
-		o.Logf("residue: %v", res.Residue)
+		if os.Getenv("C16_DEBUG") != "" {
+			fmt.Fprintf(os.Stderr, "RESIDUE %s\n", gr)
+		}
 	}
 	return o
 }
